@@ -604,3 +604,185 @@ func wrongKind(r *gen.Rng, v interface{}) interface{} {
 	}
 	return "s"
 }
+
+// ---------------------------------------------------------------------------------------------
+// single-point edits of a schema (for Schema.Equals: every edit changes the structure)
+
+func (s *Schema) Clone() *Schema {
+	b, err := json.Marshal(s)
+	if err != nil {
+		panic(err)
+	}
+	var out Schema
+	if err := json.Unmarshal(b, &out); err != nil {
+		panic(err)
+	}
+	return &out
+}
+
+// atoms returns pointers to every atom of the schema (type definitions and inlined ones).
+func (s *Schema) atoms() []*Atom {
+	var out []*Atom
+	var walkRef func(r *Ref)
+	var walkAtom func(a *Atom)
+	walkAtom = func(a *Atom) {
+		out = append(out, a)
+		if a.List != nil {
+			walkRef(&a.List.Elem)
+		}
+		if a.Map != nil {
+			for i := range a.Map.Fields {
+				walkRef(&a.Map.Fields[i].Type)
+			}
+			if a.Map.Elem != nil {
+				walkRef(a.Map.Elem)
+			}
+		}
+	}
+	walkRef = func(r *Ref) {
+		if r.Inline != nil {
+			walkAtom(r.Inline)
+		}
+	}
+	for i := range s.Types {
+		walkAtom(&s.Types[i].Atom)
+	}
+	return out
+}
+
+// Edit returns a copy of s with exactly one structural change, and a description of it.
+func Edit(r *gen.Rng, s *Schema) (*Schema, string) {
+	for tries := 0; tries < 50; tries++ {
+		c := s.Clone()
+		atoms := c.atoms()
+		a := atoms[r.Intn(len(atoms))]
+		switch r.Intn(10) {
+		case 0:
+			if a.Scalar != "" {
+				old := a.Scalar
+				for a.Scalar == old {
+					a.Scalar = gen.Pick(r, []string{"numeric", "string", "boolean", "untyped"})
+				}
+				return c, "scalar kind"
+			}
+		case 1:
+			if a.List != nil {
+				if a.List.Rel == "atomic" {
+					a.List.Rel = "associative"
+				} else {
+					a.List.Rel = "atomic"
+				}
+				return c, "list relationship"
+			}
+		case 2:
+			if a.Map != nil {
+				if a.Map.Rel == "atomic" {
+					a.Map.Rel = "separable"
+				} else {
+					a.Map.Rel = "atomic"
+				}
+				return c, "map relationship"
+			}
+		case 3:
+			if a.Map != nil && len(a.Map.Fields) > 0 {
+				i := r.Intn(len(a.Map.Fields))
+				a.Map.Fields[i].Name += "2"
+				return c, "field name"
+			}
+		case 4:
+			if a.Map != nil && len(a.Map.Fields) > 1 {
+				a.Map.Fields[0], a.Map.Fields[1] = a.Map.Fields[1], a.Map.Fields[0]
+				if a.Map.Fields[0].Name != a.Map.Fields[1].Name {
+					return c, "field order"
+				}
+			}
+		case 5:
+			if a.List != nil && len(a.List.Keys) > 0 {
+				a.List.Keys = append(a.List.Keys, "value")
+				return c, "list keys"
+			}
+		case 6:
+			// a second member on a single-member atom: the members after the first must be compared too
+			if a.Scalar != "" && a.List == nil {
+				a.List = &List{Elem: Ref{Named: "num"}, Rel: "atomic"}
+				return c, "added list member to a scalar atom"
+			}
+			if a.Scalar != "" && a.List != nil {
+				if a.List.Rel == "atomic" {
+					a.List.Rel = "associative"
+				} else {
+					a.List.Rel = "atomic"
+				}
+				return c, "list member of a multi-member atom"
+			}
+		case 7:
+			if a.Map != nil && len(a.Map.Fields) > 0 {
+				i := r.Intn(len(a.Map.Fields))
+				f := &a.Map.Fields[i]
+				if f.Type.Named != "" {
+					if f.Type.Rel == "" && c.Resolve(f.Type) != nil && c.Resolve(f.Type).Scalar == "" {
+						f.Type.Rel = "atomic"
+						return c, "reference gains a relationship override"
+					} else if f.Type.Rel != "" {
+						if f.Type.Rel == "atomic" {
+							f.Type.Rel = "separable"
+							if c.Resolve(Ref{Named: f.Type.Named}).List != nil && c.Resolve(Ref{Named: f.Type.Named}).Map == nil {
+								f.Type.Rel = "associative"
+							}
+						} else {
+							f.Type.Rel = "atomic"
+						}
+						return c, "relationship override value"
+					}
+				}
+			}
+		case 8:
+			if a.Map != nil && len(a.Map.Fields) > 0 {
+				i := r.Intn(len(a.Map.Fields))
+				f := &a.Map.Fields[i]
+				if f.Default != nil {
+					f.Default = "UDP"
+					return c, "default value"
+				}
+				if fa := c.Resolve(f.Type); fa != nil && fa.Scalar == "string" {
+					f.Default = "dflt"
+					return c, "default added"
+				}
+			}
+		case 9:
+			if len(c.Types) > 2 {
+				i := r.Intn(len(c.Types) - 1)
+				if c.Types[i].Name != "root" {
+					c.Types[i].Name += "X"
+					return c, "type name"
+				}
+			}
+		}
+	}
+	c := s.Clone()
+	c.Types = append(c.Types, TypeDef{Name: "extra", Atom: Atom{Scalar: "string"}})
+	return c, "extra type"
+}
+
+// ToggleAtomic returns a copy in which a random subset of list / map atoms switched between granular
+// and atomic (schema evolution for ReconcileFieldSetWithSchema). Type names are kept.
+func ToggleAtomic(r *gen.Rng, s *Schema) *Schema {
+	c := s.Clone()
+	for _, a := range c.atoms() {
+		if a.List != nil && r.Chance(35) {
+			if a.List.Rel == "atomic" {
+				a.List.Rel = "associative"
+			} else {
+				a.List.Rel = "atomic"
+			}
+		}
+		if a.Map != nil && r.Chance(35) {
+			if a.Map.Rel == "atomic" {
+				a.Map.Rel = "separable"
+			} else {
+				a.Map.Rel = "atomic"
+			}
+		}
+	}
+	return c
+}
